@@ -322,7 +322,9 @@ Theorem C17_e2e_newest_survives :
 Proof. exact e2e_newest_survives. Qed.
 Print Assumptions C17_e2e_newest_survives.
 
-(* Historical (fixed in /repo c1f4ba1, signature ipoe-session-without-claim): MixedAccess was set only in handleDiscover.  An IPoE
+(* Historical for REQUEST/SOLICIT (fixed in /repo c1f4ba1, signature ipoe-session-without-claim): MixedAccess was set only
+   in handleDiscover.  The same model operation (an ipoe creation path whose session does not claim) is what /repo's
+   restoreFromHASync still does at an HA promotion: KNOWN, signature ipoe-ha-promoted-session-without-claim.  An IPoE
    session created by DHCPREQUEST or DHCPv6 SOLICIT never claims its tuple: it owns nothing and shares
    the tuple with a PPPoE session, whichever came first. *)
 Theorem C17_e2e_exclusive_refuted_unclaimed_paths :
@@ -366,7 +368,9 @@ Print Assumptions C17_pppoe_site_reports_every_displaced.
 (* ---- the eviction protocol with an ASYNCHRONOUS bus and session teardown (Model.a_step) ----
    Operations: an IPoE creation path on a tuple, a PADR, a PADT for the tuple's current PPPoE session, a published
    terminate request for the tuple's IPoE session, and the delivery of the oldest queued terminate event to both
-   components — in ANY order (evictions may stay queued while sessions come and go).  For every history:
+   components, the two handlers in EITHER order (ADeliver: ipoe first, ADeliverPI: pppoe first — the dispatcher starts
+   them concurrently and they share only the registry, one atomic Release each) — in ANY order (evictions may stay
+   queued while sessions come and go).  For every history:
    (1) every live session is the owner of its tuple or has a terminate event naming it in the queue;
    (2) the owner of a tuple is a live session;
    (3) whenever the queue is empty — all evictions processed — every live session on a tuple is its owner: an IPoE
@@ -401,6 +405,14 @@ Example C17_async_nonvacuous :
     = (0%nat, 1%nat, Some proto_pppoe).
 Proof. exact async_example. Qed.
 Print Assumptions C17_async_nonvacuous.
+
+Example C17_deliver_orders_nonvacuous :
+  e2e_snapshot (a_w (a_run Repaired aworld0 [ACreateI ak; APadr ak; ADeliverPI])) ak =
+  e2e_snapshot (a_w (a_run Repaired aworld0 [ACreateI ak; APadr ak; ADeliver])) ak /\
+  e2e_snapshot (a_w (a_run Repaired aworld0 [APadr ak; ACreateI ak; AOperI ak; APadr ak; ADeliverPI; ADeliver; ADeliverPI])) ak =
+  (0%nat, 1%nat, Some proto_pppoe).
+Proof. exact deliver_orders_example. Qed.
+Print Assumptions C17_deliver_orders_nonvacuous.
 
 (* ---- ownership across a RESTART (Model.e2e_restart: the registry starts empty and every session the
         components restore from their checkpoints claims its tuple again) ----
